@@ -761,3 +761,40 @@ pub fn start_watchdog(limit_s: u64) {
         }
     });
 }
+
+// ---------------------------------------------------------------- runs to leave out
+
+static SKIP_RUNS: std::sync::OnceLock<Vec<u64>> = std::sync::OnceLock::new();
+
+/// Run indexes this worker process leaves out (runs that crash the process on the tree under
+/// test: a C01 matter; other gates go on without them).
+pub fn set_skip_runs(v: Vec<u64>) {
+    let _ = SKIP_RUNS.set(v);
+}
+
+pub fn skip_run(run: u64) -> bool {
+    SKIP_RUNS.get().map(|v| v.contains(&run)).unwrap_or(false)
+}
+
+// ---------------------------------------------------------------- findings that survive a crash
+
+static FOUND_FILE: std::sync::OnceLock<std::sync::Mutex<std::fs::File>> = std::sync::OnceLock::new();
+
+/// The worker appends the index of every violating run to this file the moment it is found,
+/// so that a later crash of the process (another run corrupting memory) does not take the
+/// finding with it.
+pub fn set_found_file(path: &std::path::Path) {
+    if let Ok(f) = std::fs::OpenOptions::new().create(true).append(true).open(path) {
+        let _ = FOUND_FILE.set(std::sync::Mutex::new(f));
+    }
+}
+
+pub fn note_found(run: u64) {
+    if let Some(m) = FOUND_FILE.get() {
+        use std::io::Write;
+        if let Ok(mut f) = m.lock() {
+            let _ = writeln!(f, "{}", run);
+            let _ = f.flush();
+        }
+    }
+}
